@@ -289,6 +289,41 @@ func c14Copies(c *Ctx, a *sketchAnchors) {
 					}
 					continue
 				}
+				// a slice field filled with a fresh `make` receives the receiver's elements: copy(fresh, receiver's same
+				// field) — or, for a slice of slices, element stores — on the same path (a fresh slice of the right
+				// length alone is an all-zero copy)
+				if g := stripVers(stripConv(v)); g.Op == "make" {
+					if sl, isSl := fld.typ.Underlying().(*types.Slice); isSl {
+						_, nested := sl.Elem().Underlying().(*types.Slice)
+						filled := false
+						for _, e := range p.Effects {
+							if e.Kind == "call" && e.Call.Op == "builtin" && e.Call.Sym == "copy" && len(e.Call.Args) == 2 && stripVers(e.Call.Args[0]).Key() == g.Key() && termIsRecvPath(stripVers(e.Call.Args[1]), fld.path) {
+								filled = true
+							}
+							if nested && e.Kind == "store" && e.Addr.Op == "index" && stripVers(e.Addr.Args[0]).Key() == g.Key() {
+								filled = true
+							}
+						}
+						// a slice of slices is filled inside a loop the path may not have entered: look for the element
+						// copy anywhere in the function
+						if nested && !filled {
+							for _, b := range f.Blocks {
+								for _, in := range b.Instrs {
+									if call, isCall := in.(*ssa.Call); isCall {
+										if bi, isB := call.Common().Value.(*ssa.Builtin); isB && bi.Name() == "copy" {
+											filled = true
+										}
+									}
+								}
+							}
+						}
+						if !filled {
+							ok = false
+							found = "a fresh slice that never receives the receiver's elements: " + g.Key()
+							continue
+						}
+					}
+				}
 				// a field filled with x.Copy() takes it from the receiver's SAME field (the positive store's copy is
 				// the copy's positive store)
 				if cv := stripConv(v); isMethodCall(cv, "Copy") && len(cv.Args) >= 1 {
